@@ -6,8 +6,9 @@
    here a resolver is ANY program over client queries).  The client is the LocalClient
    model of Client.v (validated against Go by C14's correspondence). *)
 From Coq Require Import List.
-From DepsDev Require Import Lib.Base Lib.Interleave Resolve.MatchReq Resolve.Client Resolve.Client_proofs
-  Resolve.Purity_proofs.
+From Coq Require Import ZArith NArith.
+From DepsDev Require Import Lib.Base Lib.Order Lib.Interleave Gen.ResolveTables Resolve.Attr Resolve.MatchReq
+  Resolve.MatchReq_proofs Resolve.Client Resolve.Client_proofs Resolve.Purity_proofs.
 Import ListNotations.
 
 (* Resolving never changes what the client subsequently reports: no lookup writes. *)
@@ -43,6 +44,26 @@ Theorem C05_concurrent_store : forall O var G sched (rs : list (resolver G)) c,
 Proof. exact interleaving_leaves_store. Qed.
 Print Assumptions C05_concurrent_store.
 
-(* Insertion order: two histories of additions that leave the same live versions make the
-   client report the same lists (Properties/C12.v, C12_perm, under its side condition that
-   no two distinct spellings compare equal for Maven/PyPI: known finding F-C12-1). *)
+(* Insertion order: two histories of additions that leave the same live versions in a
+   package (for instance the same additions in another order) make the client report the
+   same Versions and the same MatchingVersions for every requirement, hence give every
+   resolver the same answers.  Side conditions as in C12: the comparator laws, the repaired
+   AddVersion, and for Maven/PyPI no two distinct spellings that compare equal (known
+   finding F-C12-1). *)
+Theorem C05_insertion_order : forall O var ops1 ops2 k vs1 vs2,
+  laws_ok O -> var <> Current ->
+  var = FixAssignSort \/ N.eqb (pk_sys (vk_pkg k)) sys_npm = false ->
+  Forall (add_parses O) ops1 -> Forall (add_parses O) ops2 ->
+  Forall add_concrete ops1 -> Forall add_concrete ops2 ->
+  (forall k', vk_pkg k' = vk_pkg k -> option_map fst (last_add ops1 k') = option_map fst (last_add ops2 k')) ->
+  (N.eqb (pk_sys (vk_pkg k)) sys_npm = false -> no_equal_distinct O (pk_sys (vk_pkg k)) vs1) ->
+  versions_of (run O var ops1) (vk_pkg k) = Ok vs1 ->
+  versions_of (run O var ops2) (vk_pkg k) = Ok vs2 ->
+  vs1 = vs2 /\
+  matching_versions O (run O var ops1) k = matching_versions O (run O var ops2) k.
+Proof.
+  intros O var ops1 ops2 k vs1 vs2 HL Hv Hc P1 P2 C1 C2 Hs NE H1 H2.
+  pose proof (versions_canonical O var HL ops1 ops2 (vk_pkg k) vs1 vs2 Hv Hc P1 P2 C1 C2 Hs NE H1 H2) as E.
+  split; [exact E | exact (matching_canonical O var ops1 ops2 k vs1 vs2 H1 H2 E)].
+Qed.
+Print Assumptions C05_insertion_order.
